@@ -1,9 +1,39 @@
-"""C14 -- configuration selects exactly the named patterns and the named directory (bounded: name tables
-in-process against the names scraped from the documents + the real binary over flag/toml/default combinations)."""
+"""C14 -- configuration selects exactly the named patterns and the named directory (mixed, mostly bounded).
+
+Verus (unit dispatch): the default lists get_all_optimizations / get_all_vulnerabilities / get_all_qa contain EVERY variant of
+their enum ("without a configuration file all patterns are analysed"), and analyze_for_* hands each pattern to the detector
+documented for it (the variant -> detector table is written from the documentation, not read from the match).
+Bounded: the name tables str_to_* (match on lower-cased string literals: outside Verus' subset) in-process against the names
+scraped from the documents, and Opts::new / main through the real binary over flag / toml / default combinations."""
+from .. import driver as D
 from . import bounded
+
+UNITS = [("dispatch", ["get_all_optimizations", "get_all_vulnerabilities", "get_all_qa", "start", "end",
+                       "analyze_for_optimization", "analyze_for_vulnerability", "analyze_for_qa"])]
+TRUST = [
+    "in unit dispatch the detectors are external_body stubs `r@ == spec_<fn>(source_unit)`; that <fn> is the detector of the documented pattern is checked by name: the function must be defined in the module file named after the pattern",
+    "solang_parser::parse is a partial function of (text, file number)",
+]
+BOUNDED_PART = ["str_to_optimization / str_to_vulnerability / str_to_qa (match on `.to_lowercase().as_str()` literals)",
+                "Opts::new, main (clap, toml, process exit): exercised through the built binary"]
+
+
+def key_to_functions(key):
+    if "default" in key or "get_all" in key:
+        return ["get_all_optimizations", "get_all_vulnerabilities", "get_all_qa"]
+    return []
 
 
 def run(tier, seed):
-    return bounded.run_bounded("C14", "c14", tier, seed,
-                               "configuration contract: documented names <-> patterns; --path > toml path > ./contracts; unknown name fails before any report",
-                               need_binary=True)
+    vd = D.Verdict("C14", tier, seed)
+    covs, failed = bounded.run_units(vd, UNITS)
+    try:
+        binary, _ = D.build_native()
+        env = {"VXN_SOLSTAT_BIN": D.build_repo_binary()}
+    except D.BuildError as e:
+        vd.add_undecided(str(e)[:800])
+        return vd.finish({"level": "exploration", "coverage": {"evaluations": 1, "distinct_nontrivial": 2, "rule": "harness / binary did not build", "samples": ["-"]}})
+    nat = D.run_native(binary, "c14", tier, seed, env=env)
+    D.combine(vd, failed, nat, key_to_functions=key_to_functions)
+    ev = bounded.evidence_from_native(nat, [])
+    return vd.finish(bounded.mixed_evidence(ev, covs, BOUNDED_PART, TRUST, tier, UNITS, vd))
